@@ -284,7 +284,7 @@ class Orchestrator:  # thailint: ignore[srp]
             List of violations found in the file.
         """
         # Fast path: skip compiled files and common excluded directories
-        if _is_hardcoded_excluded(file_path):
+        if _is_hardcoded_excluded(self._path_in_project(file_path)):
             return []
 
         if self.ignore_parser.is_ignored(file_path) or self._is_ignored_by_config(file_path):
@@ -298,6 +298,18 @@ class Orchestrator:  # thailint: ignore[srp]
         context = FileLintContext(file_path, language, metadata=metadata)
 
         return self._execute_rules(rules, context)
+
+    def _path_in_project(self, file_path: Path) -> Path:
+        """Path of a file inside the project.
+
+        Built-in exclusions (build/, dist/, venv/, ...) are decided by the path inside the
+        project, never by the directories that lead to the project: a project checked out
+        under /home/ci/build/ must not be skipped wholesale.
+        """
+        try:
+            return file_path.resolve().relative_to(self.project_root.resolve())
+        except (ValueError, OSError):
+            return file_path
 
     def _is_ignored_by_config(self, file_path: Path) -> bool:
         """Check the top-level ``ignore`` list of the loaded configuration.
@@ -452,7 +464,9 @@ class Orchestrator:  # thailint: ignore[srp]
             return
         metadata = {**self.config, "_project_root": self.project_root}
         for file_path in file_paths:
-            if _is_hardcoded_excluded(file_path) or self.ignore_parser.is_ignored(file_path):
+            if _is_hardcoded_excluded(self._path_in_project(file_path)):
+                continue
+            if self.ignore_parser.is_ignored(file_path):
                 continue
             if self._is_ignored_by_config(file_path):
                 continue
